@@ -83,6 +83,10 @@ func (c Config) Options() *opt.Options {
 	case "nocache":
 		o = flushy()
 		o.DisableBlockCache = true
+	case "evict":
+		// removed tables are evicted from the block cache, which re-enables file-number reuse
+		o = flushy()
+		o.BlockCacheEvictRemoved = true
 	case "nopoolcache":
 		o = flushy()
 		o.DisableBufferPool = true
